@@ -24,7 +24,7 @@ def adapt(run):
         elif k == "deliver":
             e = ev["x"][0] if len(ev["x"]) == 1 else -1
             d2e[ev["d"]] = e
-            out.append({"ev": "CbEmit", "e": e})
+            out.append({"ev": "CbEmit", "e": e, "md": ev["md"]})
         elif k == "cons_done" and not sync:
             out.append({"ev": "ConsumerDone", "e": d2e.get(ev["d"], -1)})
         elif k == "release" and ev["site"].endswith("rate_limit.update"):
@@ -51,6 +51,8 @@ def attribute(run, trace, idx):
     ev = trace[idx - 1]
     k = ev["ev"]
     sync = run["cfg"]["cons"][0] == "sync"
+    if k == "CbEmit" and ev.get("md") != [ev.get("e")]:
+        return "C10", "element %s was delivered with metadata %s instead of its own" % (ev.get("e"), ev.get("md"))
     if k in ("CbEmit", "Advance", "ObsNext", "End"):
         return "C13", "%s does not match the specification (spacing / order / reservation)" % k
     if k == "EmitDone":
